@@ -20,14 +20,16 @@ theorem split_getElem? {l : List β} {q : Nat} {x : β} (h : l[q]? = some x) :
     | zero => simp at h; simp [h]
     | succ q => simp at h; simp; exact ih h
 
-theorem getElem?_mid (A X Y : List β) (r : Nat) (hr : r < X.length) :
-    (A ++ (X ++ Y))[A.length + r]? = X[r]? := by
+theorem getElem?_mid (A X Y : List β) (j r : Nat) (hj : j = A.length + r) (hr : r < X.length) :
+    (A ++ (X ++ Y))[j]? = X[r]? := by
+  subst hj
   rw [List.getElem?_append_right (by omega)]
   have : A.length + r - A.length = r := by omega
   rw [this, List.getElem?_append_left hr]
 
-theorem drop_mid (A X Y : List β) (r : Nat) (hr : r ≤ X.length) :
-    (A ++ (X ++ Y)).drop (A.length + r) = X.drop r ++ Y := by
+theorem drop_mid (A X Y : List β) (j r : Nat) (hj : j = A.length + r) (hr : r ≤ X.length) :
+    (A ++ (X ++ Y)).drop j = X.drop r ++ Y := by
+  subst hj
   rw [List.drop_append]
   have h1 : A.drop (A.length + r) = [] := List.drop_eq_nil_of_le (by omega)
   have h2 : A.length + r - A.length = r := by omega
@@ -35,14 +37,9 @@ theorem drop_mid (A X Y : List β) (r : Nat) (hr : r ≤ X.length) :
   have h3 : r - X.length = 0 := by omega
   simp [h3]
 
-theorem take_mid (A X Y : List β) (r : Nat) (hr : r ≤ X.length) :
-    (A ++ (X ++ Y)).take (A.length + r) = A ++ X.take r := by
-  rw [List.take_append]
-  have h1 : A.take (A.length + r) = A := List.take_of_length_le (by omega)
-  have h2 : A.length + r - A.length = r := by omega
-  rw [h1, h2, List.take_append]
-  have h3 : r - X.length = 0 := by omega
-  simp [h3]
+theorem snoc_of_getLast? {l : List β} {x : β} (h : l.getLast? = some x) : l = l.dropLast ++ [x] := by
+  obtain ⟨ys, hys⟩ := List.getLast?_eq_some_iff.1 h
+  rw [hys]; simp
 
 end Lists
 
@@ -119,6 +116,11 @@ theorem abs_eq (s : Flat) (k : Nat) :
 @[simp] theorem cellsOf_append (L M : List Win) : cellsOf (L ++ M) = cellsOf L ++ cellsOf M := by
   simp [cellsOf]
 
+theorem cells_split {L : List Win} {q : Nat} {inner : Win} (hget : L[q]? = some inner) :
+    cellsOf L = cellsOf (L.take q) ++ (inner.positions ++ cellsOf (L.drop (q + 1))) := by
+  conv => lhs; rw [split_getElem? hget]
+  simp
+
 theorem cellsOf_length (L : List Win) (c : Nat) (hL : ∀ w ∈ L, w.len = c) :
     (cellsOf L).length = L.length * c := by
   induction L with
@@ -191,5 +193,797 @@ theorem rows_nthBack_cols {m : Mode} {it it' : Rows} {j : Nat} {x : Option Win}
   · obtain ⟨e, _, h⟩ := bind_ok_inv h
     obtain ⟨v, _, h⟩ := bind_ok_inv h
     have := rows_nextBack_cols h; exact this
+/-! ### `next` -/
+
+theorem mkWF {s s' : Flat} {k k' n : Nat} (h : s.WF k n) (hr : s'.iter.WF k' n)
+    (hc : s'.iter.cols = s.iter.cols)
+    (hfi : ∀ w, s'.front = some w → w.off + w.len ≤ n) (hbi : ∀ w, s'.back = some w → w.off + w.len ≤ n)
+    (htot : optLen s'.front + k' * s.iter.cols + optLen s'.back ≤ optLen s.front + k * s.iter.cols + optLen s.back)
+    (hz : s.iter.cols = 0 → optLen s'.front = 0 ∧ optLen s'.back = 0) : s'.WF k' n :=
+  ⟨hr, hfi, hbi, by rw [hc]; exact Nat.le_trans htot h.total, by rw [hc]; exact hz⟩
+
+theorem next_front {s : Flat} {w : Win} (f : Nat) (hf : s.front = some w) (hl : w.len ≠ 0) :
+    s.next (f + 1) = .ok (some w.off, { s with front := some ⟨w.off + 1, w.len - 1⟩ }) := by
+  simp [Flat.next, hf, SliceIter.next, hl]
+
+theorem next_front_empty {s : Flat} (f : Nat) (hF : s.front = none ∨ ∃ w, s.front = some w ∧ w.len = 0) :
+    s.next (f + 1) = (s.iter.next >>= fun p => match p.1 with
+      | none => match s.back with
+        | none => pure (none, { s with iter := p.2 })
+        | some w => pure ((SliceIter.next w).1, { s with iter := p.2, back := some (SliceIter.next w).2 })
+      | some inner => Flat.next f { s with iter := p.2, front := some inner }) := by
+  obtain ⟨it, fr, bk⟩ := s
+  rcases hF with hF | ⟨w, hF, hl⟩
+  · simp only at hF; subst hF
+    simp only [Flat.next]
+    rfl
+  · simp only at hF; subst hF
+    simp only [Flat.next, SliceIter.next, hl]
+    rfl
+
+@[simp] theorem optPositions_some (w : Win) : optPositions (some w) = w.positions := rfl
+@[simp] theorem optPositions_none : optPositions none = [] := rfl
+@[simp] theorem optLen_some (w : Win) : optLen (some w) = w.len := rfl
+@[simp] theorem optLen_none : optLen none = 0 := rfl
+
+/-- `slice::Iter::next` on a window -/
+theorem slice_next (w : Win) :
+    (SliceIter.next w).1 = w.positions.head? ∧ (SliceIter.next w).2.positions = w.positions.tail ∧
+    (SliceIter.next w).2.off + (SliceIter.next w).2.len = w.off + w.len ∧ (SliceIter.next w).2.len ≤ w.len := by
+  by_cases hl : w.len = 0
+  · simp [SliceIter.next, hl, positions_nil hl]
+  · simp only [SliceIter.next, hl, if_false, positions_cons hl]
+    simp; omega
+
+theorem front_empty_cases {s : Flat} (hfr : ¬ ∃ w, s.front = some w ∧ w.len ≠ 0) :
+    (s.front = none ∨ ∃ w, s.front = some w ∧ w.len = 0) ∧ optLen s.front = 0 := by
+  cases hf : s.front with
+  | none => exact ⟨Or.inl rfl, rfl⟩
+  | some w =>
+    have : w.len = 0 := Classical.byContradiction fun hl => hfr ⟨w, hf, hl⟩
+    exact ⟨Or.inr ⟨w, rfl, this⟩, this⟩
+
+theorem next_spec {s : Flat} {k n : Nat} (h : s.WF k n) (f : Nat) :
+    ∃ s' k', s.next (f + 2) = .ok ((s.abs k).head?, s') ∧ s'.WF k' n ∧ s'.abs k' = (s.abs k).tail := by
+  by_cases hfr : ∃ w, s.front = some w ∧ w.len ≠ 0
+  · obtain ⟨w, hf, hl⟩ := hfr
+    refine ⟨{ s with front := some ⟨w.off + 1, w.len - 1⟩ }, k, ?_, ?_, ?_⟩
+    · rw [next_front (f + 1) hf hl, abs_eq, hf]
+      simp [optPositions, positions_cons hl]
+    · have hin := h.front w hf
+      refine mkWF h ?_ ?_ ?_ ?_ ?_ ?_
+      · exact h.rows
+      · rfl
+      · intro w' hw'; simp at hw'; subst hw'; simp; omega
+      · exact h.back
+      · simp [optLen, hf]
+      · intro hc; have := h.cols_zero hc; simp [optLen, hf] at this ⊢; omega
+    · simp only [abs_eq, hf, optPositions, positions_cons hl]
+      simp
+  · obtain ⟨hF, hF0⟩ := front_empty_cases hfr
+    have hFn : optPositions s.front = [] := optPositions_nil hF0
+    obtain ⟨it', hn, hwf, habs⟩ := C08_next s.iter k n h.rows
+    have hcols := rows_next_cols hn
+    simp only [Seq.next] at hn habs
+    rw [next_front_empty (f + 1) hF, hn]
+    simp only [ok_bind, abs_eq, hFn, List.nil_append]
+    cases hh : (s.iter.abs k).head? with
+    | none =>
+      have hnil : s.iter.abs k = [] := List.head?_eq_none_iff.1 hh
+      have hk : k = 0 := by rw [← rows_abs_length s.iter k, hnil]; rfl
+      subst hk
+      have hnil' : it'.abs 0 = [] := by simp [Rows.abs]
+      simp only [hnil, cellsOf_nil, List.nil_append]
+      cases hb : s.back with
+      | none =>
+        refine ⟨_, 0, rfl, ?_, ?_⟩
+        · refine mkWF h ?_ ?_ ?_ ?_ ?_ ?_
+          · exact hwf
+          · exact hcols
+          · exact h.front
+          · simp
+          · simp
+          · intro hc; have := h.cols_zero hc; simpa [hb] using this
+        · simp [hFn, hnil']
+      | some w =>
+        obtain ⟨s1, s2, s3, s4⟩ := slice_next w
+        have hin := h.back w hb
+        refine ⟨{ s with iter := it', back := some (SliceIter.next w).2 }, 0, ?_, ?_, ?_⟩
+        · simp only [pure_eq, optPositions_some, s1]
+        · refine mkWF h ?_ ?_ ?_ ?_ ?_ ?_
+          · exact hwf
+          · exact hcols
+          · exact h.front
+          · intro w' hw'; simp at hw'; subst hw'; omega
+          · simp [optLen, hb]; omega
+          · intro hc; have := h.cols_zero hc; simp [optLen, hb] at this ⊢; omega
+        · simp [hFn, hnil', s2]
+    | some inner =>
+      have hcons : s.iter.abs k = inner :: (s.iter.abs k).tail := by
+        cases hl : s.iter.abs k with
+        | nil => simp [hl] at hh
+        | cons a t => simp [hl] at hh; simp [hh]
+      have hmem : inner ∈ s.iter.abs k := by rw [hcons]; simp
+      have hk : k ≠ 0 := by
+        intro hk; subst hk; simp [Rows.abs] at hmem
+      obtain ⟨hin, hlen⟩ := (C08_rows_disjoint s.iter k n h.rows).2 inner hmem
+      have hcp := h.rows.cols_pos hk
+      have hl : inner.len ≠ 0 := by omega
+      have hhead : (cellsOf (s.iter.abs k) ++ optPositions s.back).head? = some inner.off := by
+        rw [hcons]; simp [positions_cons hl]
+      simp only []
+      rw [next_front f rfl hl, hhead]
+      refine ⟨_, k - 1, rfl, ?_, ?_⟩
+      · refine mkWF h ?_ ?_ ?_ ?_ ?_ ?_
+        · exact hwf
+        · exact hcols
+        · intro w' hw'; simp at hw'; subst hw'; simp; omega
+        · exact h.back
+        · obtain ⟨r, rfl⟩ : ∃ r, k = r + 1 := ⟨k - 1, by omega⟩
+          simp [optLen, Nat.add_mul]; omega
+        · intro hc; omega
+      · rw [hcons]
+        simp [habs, positions_cons hl]
+
+/-! ### `next_back` -/
+
+theorem nextBack_back {m : Mode} {s : Flat} {w : Win} (f : Nat) (hf : s.back = some w) (hl : w.len ≠ 0) :
+    s.nextBack m (f + 1) = .ok (some (w.off + (w.len - 1)), { s with back := some ⟨w.off, w.len - 1⟩ }) := by
+  simp [Flat.nextBack, hf, SliceIter.nextBack, hl]
+
+theorem nextBack_back_empty {m : Mode} {s : Flat} (f : Nat)
+    (hB : s.back = none ∨ ∃ w, s.back = some w ∧ w.len = 0) :
+    s.nextBack m (f + 1) = (s.iter.nextBack m >>= fun p => match p.1 with
+      | none => match s.front with
+        | none => pure (none, { s with iter := p.2 })
+        | some w => pure ((SliceIter.nextBack w).1, { s with iter := p.2, front := some (SliceIter.nextBack w).2 })
+      | some inner => Flat.nextBack m f { s with iter := p.2, back := some inner }) := by
+  obtain ⟨it, fr, bk⟩ := s
+  rcases hB with hB | ⟨w, hB, hl⟩
+  · simp only at hB; subst hB
+    simp only [Flat.nextBack]
+    rfl
+  · simp only at hB; subst hB
+    simp only [Flat.nextBack, SliceIter.nextBack, hl]
+    rfl
+
+/-- `slice::Iter::next_back` on a window -/
+theorem slice_nextBack (w : Win) :
+    (SliceIter.nextBack w).1 = w.positions.getLast? ∧
+    (SliceIter.nextBack w).2.positions = w.positions.dropLast ∧
+    (SliceIter.nextBack w).2.off + (SliceIter.nextBack w).2.len ≤ w.off + w.len ∧
+    (SliceIter.nextBack w).2.len ≤ w.len := by
+  by_cases hl : w.len = 0
+  · simp [SliceIter.nextBack, hl, positions_nil hl]
+  · simp only [SliceIter.nextBack, hl, if_false, positions_snoc hl]
+    simp
+
+theorem back_empty_cases {s : Flat} (hbk : ¬ ∃ w, s.back = some w ∧ w.len ≠ 0) :
+    (s.back = none ∨ ∃ w, s.back = some w ∧ w.len = 0) ∧ optLen s.back = 0 := by
+  cases hf : s.back with
+  | none => exact ⟨Or.inl rfl, rfl⟩
+  | some w =>
+    have : w.len = 0 := Classical.byContradiction fun hl => hbk ⟨w, hf, hl⟩
+    exact ⟨Or.inr ⟨w, rfl, this⟩, this⟩
+
+theorem nextBack_spec (m : Mode) {s : Flat} {k n : Nat} (h : s.WF k n) (f : Nat) :
+    ∃ s' k', s.nextBack m (f + 2) = .ok ((s.abs k).getLast?, s') ∧ s'.WF k' n ∧
+      s'.abs k' = (s.abs k).dropLast := by
+  by_cases hbk : ∃ w, s.back = some w ∧ w.len ≠ 0
+  · obtain ⟨w, hf, hl⟩ := hbk
+    refine ⟨{ s with back := some ⟨w.off, w.len - 1⟩ }, k, ?_, ?_, ?_⟩
+    · rw [nextBack_back (f + 1) hf hl, abs_eq, hf]
+      simp [positions_snoc hl, ← List.append_assoc]
+    · have hin := h.back w hf
+      refine mkWF h ?_ ?_ ?_ ?_ ?_ ?_
+      · exact h.rows
+      · rfl
+      · exact h.front
+      · intro w' hw'; simp at hw'; subst hw'; simp; omega
+      · simp [hf]
+      · intro hc; have := h.cols_zero hc; simp [hf] at this ⊢; omega
+    · simp only [abs_eq, hf, optPositions_some, positions_snoc hl]
+      simp [← List.append_assoc]
+  · obtain ⟨hB, hB0⟩ := back_empty_cases hbk
+    have hBn : optPositions s.back = [] := optPositions_nil hB0
+    obtain ⟨it', hn, hwf, habs⟩ := C08_next_back m s.iter k n h.rows
+    have hcols := rows_nextBack_cols hn
+    simp only [Seq.nextBack] at hn habs
+    rw [nextBack_back_empty (f + 1) hB, hn]
+    simp only [ok_bind, abs_eq, hBn, List.append_nil]
+    cases hh : (s.iter.abs k).getLast? with
+    | none =>
+      have hnil : s.iter.abs k = [] := List.getLast?_eq_none_iff.1 hh
+      have hk : k = 0 := by rw [← rows_abs_length s.iter k, hnil]; rfl
+      subst hk
+      have hnil' : it'.abs 0 = [] := by simp [Rows.abs]
+      simp only [hnil, cellsOf_nil, List.append_nil]
+      cases hb : s.front with
+      | none =>
+        refine ⟨_, 0, rfl, ?_, ?_⟩
+        · refine mkWF h ?_ ?_ ?_ ?_ ?_ ?_
+          · exact hwf
+          · exact hcols
+          · simp
+          · exact h.back
+          · simp
+          · intro hc; have := h.cols_zero hc; simpa [hb] using this
+        · simp [hBn, hnil']
+      | some w =>
+        obtain ⟨s1, s2, s3, s4⟩ := slice_nextBack w
+        have hin := h.front w hb
+        refine ⟨{ s with iter := it', front := some (SliceIter.nextBack w).2 }, 0, ?_, ?_, ?_⟩
+        · simp only [pure_eq, optPositions_some, s1]
+        · refine mkWF h ?_ ?_ ?_ ?_ ?_ ?_
+          · exact hwf
+          · exact hcols
+          · intro w' hw'; simp at hw'; subst hw'; omega
+          · exact h.back
+          · simp [hb]; omega
+          · intro hc; have := h.cols_zero hc; simp [hb] at this ⊢; omega
+        · simp [hBn, hnil', s2]
+    | some inner =>
+      have hsnoc : s.iter.abs k = (s.iter.abs k).dropLast ++ [inner] := by
+        exact snoc_of_getLast? hh
+      have hmem : inner ∈ s.iter.abs k := by rw [hsnoc]; simp
+      have hk : k ≠ 0 := by
+        intro hk; subst hk; simp [Rows.abs] at hmem
+      obtain ⟨hin, hlen⟩ := (C08_rows_disjoint s.iter k n h.rows).2 inner hmem
+      have hcp := h.rows.cols_pos hk
+      have hl : inner.len ≠ 0 := by omega
+      have hlast : (optPositions s.front ++ cellsOf (s.iter.abs k)).getLast? =
+          some (inner.off + (inner.len - 1)) := by
+        rw [hsnoc]; simp [positions_snoc hl, ← List.append_assoc]
+      simp only []
+      rw [nextBack_back f rfl hl, hlast]
+      refine ⟨_, k - 1, rfl, ?_, ?_⟩
+      · refine mkWF h ?_ ?_ ?_ ?_ ?_ ?_
+        · exact hwf
+        · exact hcols
+        · exact h.front
+        · intro w' hw'; simp at hw'; subst hw'; simp; omega
+        · obtain ⟨r, rfl⟩ : ∃ r, k = r + 1 := ⟨k - 1, by omega⟩
+          simp [Nat.add_mul]; omega
+        · intro hc; omega
+      · rw [hsnoc]
+        simp [habs, positions_snoc hl, ← List.append_assoc]
+
+/-! ### `nth` -/
+
+/-- `slice::Iter::nth` on a window -/
+theorem slice_nth (w : Win) (r : Nat) :
+    (SliceIter.nth w r).1 = w.positions[r]? ∧ (SliceIter.nth w r).2.positions = w.positions.drop (r + 1) ∧
+    (SliceIter.nth w r).2.off + (SliceIter.nth w r).2.len = w.off + w.len ∧
+    (SliceIter.nth w r).2.len ≤ w.len := by
+  by_cases hr : r < w.len
+  · simp only [SliceIter.nth, hr, if_true, positions_getElem?, positions_drop]
+    refine ⟨trivial, ?_, by omega, by omega⟩
+    rw [Nat.add_assoc, Nat.sub_sub]
+  · simp only [SliceIter.nth, hr, if_false, positions_getElem?]
+    refine ⟨trivial, ?_, by omega, by omega⟩
+    rw [positions_nil rfl]
+    symm; apply List.drop_eq_nil_of_le
+    rw [positions_length]; omega
+
+theorem nth_front {m : Mode} {s : Flat} {w : Win} {j : Nat} (hc : s.iter.cols ≠ 0) (hf : s.front = some w)
+    (hj : j < w.len) :
+    s.nth m j = .ok (some (w.off + j), { s with front := some ⟨w.off + j + 1, w.len - j - 1⟩ }) := by
+  simp [Flat.nth, hc, hf, hj, SliceIter.nth]
+
+theorem nth_front_skip {m : Mode} {s : Flat} {w : Win} {j : Nat} (hc : s.iter.cols ≠ 0) (hf : s.front = some w)
+    (hj : w.len ≤ j) :
+    s.nth m j = ({ s with front := none } : Flat).nth m (j - w.len) := by
+  have : ¬ j < w.len := by omega
+  simp [Flat.nth, hc, hf, this]
+
+theorem nth_spec_none (m : Mode) {s : Flat} {k n : Nat} (h : s.WF k n) (hc : s.iter.cols ≠ 0)
+    (hf : s.front = none) (j : Nat) :
+    ∃ s' k', s.nth m j = .ok ((s.abs k)[j]?, s') ∧ s'.WF k' n ∧ s'.abs k' = (s.abs k).drop (j + 1) := by
+  have hlen := C08_len m s.iter k n h.rows
+  have hall := (C08_rows_disjoint s.iter k n h.rows).2
+  have hcp : 0 < s.iter.cols := by omega
+  have hclen : (cellsOf (s.iter.abs k)).length = k * s.iter.cols := by
+    rw [cellsOf_length _ _ (fun w hw => (hall w hw).2), rows_abs_length]
+  have htot := h.total
+  have hword := h.rows.word
+  have hkk : k ≤ k * s.iter.cols := Nat.le_mul_of_pos_right k hcp
+  obtain ⟨q, hqd⟩ : ∃ q, j / s.iter.cols = q := ⟨_, rfl⟩
+  obtain ⟨r, hrd⟩ : ∃ r, j % s.iter.cols = r := ⟨_, rfl⟩
+  have hr : r < s.iter.cols := by rw [← hrd]; exact Nat.mod_lt _ hcp
+  have hjqr : j = q * s.iter.cols + r := by
+    have := Nat.div_add_mod j s.iter.cols
+    rw [Nat.mul_comm, hqd, hrd] at this
+    exact this.symm
+  by_cases hq : q < k
+  · have hmin : min k q = q := Nat.min_eq_right (Nat.le_of_lt hq)
+    obtain ⟨it', hn, hwf, habs⟩ := C08_nth m s.iter k n h.rows q (by omega)
+    have hcols := rows_nth_cols hn
+    simp only [Seq.nth] at hn habs
+    have hql : q < (s.iter.abs k).length := by rw [rows_abs_length]; exact hq
+    have hget : (s.iter.abs k)[q]? = some (s.iter.abs k)[q] := List.getElem?_eq_getElem hql
+    generalize (s.iter.abs k)[q] = inner at hget
+    rw [hget] at hn
+    have hmem : inner ∈ s.iter.abs k := List.mem_of_getElem? hget
+    obtain ⟨hin, hil⟩ := hall inner hmem
+    have hqc : (q + 1) * s.iter.cols ≤ k * s.iter.cols := Nat.mul_le_mul_right _ hq
+    rw [Nat.add_mul] at hqc
+    have hum : umul m q s.iter.cols = .ok (q * s.iter.cols) := umul_ok _ _ _ (by omega)
+    have hus : usub m j (q * s.iter.cols) = .ok r := by
+      rw [usub_ok m _ _ (by omega)]; congr 1; omega
+    have hA : (cellsOf ((s.iter.abs k).take q)).length = q * s.iter.cols := by
+      rw [cellsOf_length _ s.iter.cols (fun w hw => (hall w (List.mem_of_mem_take hw)).2), List.length_take,
+        rows_abs_length, Nat.min_eq_left (Nat.le_of_lt hq)]
+    have habsS : s.abs k = cellsOf ((s.iter.abs k).take q) ++
+        (inner.positions ++ (cellsOf ((s.iter.abs k).drop (q + 1)) ++ optPositions s.back)) := by
+      rw [abs_eq, hf, cells_split hget]; simp
+    refine ⟨{ s with iter := it', front := some ⟨inner.off + r + 1, inner.len - r - 1⟩ }, k - (q + 1), ?_, ?_, ?_⟩
+    · rw [habsS, getElem?_mid _ _ _ j r (by omega) (by rw [positions_length]; omega),
+        positions_getElem?, if_pos (by omega)]
+      simp [Flat.nth, hc, hf, hlen, hqd, hmin, hn, hum, hus, SliceIter.nth, hil, hr]
+    · refine mkWF h ?_ ?_ ?_ ?_ ?_ ?_
+      · exact hwf
+      · exact hcols
+      · intro w' hw'; simp at hw'; subst hw'; simp; omega
+      · exact h.back
+      · have : (k - (q + 1) + 1) * s.iter.cols ≤ k * s.iter.cols := Nat.mul_le_mul_right _ (by omega)
+        rw [Nat.add_mul] at this
+        simp [hf]; omega
+      · intro hc0; omega
+    · rw [habsS, drop_mid _ _ _ (j + 1) (r + 1) (by omega) (by rw [positions_length]; omega),
+        positions_drop, abs_eq]
+      simp only [optPositions_some, habs]
+      rw [Nat.sub_sub, Nat.add_assoc]
+  · have hkq : k ≤ q := by omega
+    have hmin : min k q = k := Nat.min_eq_left hkq
+    obtain ⟨it', hn, hwf, habs⟩ := C08_nth m s.iter k n h.rows k (by omega)
+    have hcols := rows_nth_cols hn
+    simp only [Seq.nth] at hn habs
+    have hnone : (s.iter.abs k)[k]? = none := List.getElem?_eq_none (by rw [rows_abs_length]; omega)
+    have hk0 : k - (k + 1) = 0 := by omega
+    rw [hnone] at hn
+    rw [hk0] at hwf habs
+    have hnil' : it'.abs 0 = [] := by simp [Rows.abs]
+    have hkc : k * s.iter.cols ≤ j := by
+      have := Nat.mul_le_mul_right s.iter.cols hkq
+      omega
+    have hum : umul m k s.iter.cols = .ok (k * s.iter.cols) := umul_ok _ _ _ (by omega)
+    have hus : usub m j (k * s.iter.cols) = .ok (j - k * s.iter.cols) := usub_ok m _ _ hkc
+    have habsS : s.abs k = cellsOf (s.iter.abs k) ++ optPositions s.back := by
+      rw [abs_eq, hf]; simp
+    cases hb : s.back with
+    | none =>
+      refine ⟨{ s with iter := it' }, 0, ?_, ?_, ?_⟩
+      · rw [habsS, hb, optPositions_none, List.append_nil, List.getElem?_eq_none (by omega)]
+        simp [Flat.nth, hc, hf, hlen, hqd, hmin, hn, hum, hus, hb]
+      · refine mkWF h ?_ ?_ ?_ ?_ ?_ ?_
+        · exact hwf
+        · exact hcols
+        · exact h.front
+        · exact h.back
+        · simp
+        · intro hc0; omega
+      · rw [habsS, hb, optPositions_none, List.append_nil, List.drop_eq_nil_of_le (by omega), abs_eq]
+        simp [hf, hnil']
+    | some w =>
+      obtain ⟨s1, s2, s3, s4⟩ := slice_nth w (j - k * s.iter.cols)
+      have hin := h.back w hb
+      refine ⟨{ s with iter := it', back := some (SliceIter.nth w (j - k * s.iter.cols)).2 }, 0, ?_, ?_, ?_⟩
+      · rw [habsS, hb, optPositions_some, List.getElem?_append_right (by omega), hclen, ← s1]
+        simp [Flat.nth, hc, hf, hlen, hqd, hmin, hn, hum, hus, hb]
+      · refine mkWF h ?_ ?_ ?_ ?_ ?_ ?_
+        · exact hwf
+        · exact hcols
+        · exact h.front
+        · intro w' hw'; simp at hw'; subst hw'; omega
+        · simp [hb]; omega
+        · intro hc0; omega
+      · rw [habsS, hb, optPositions_some, List.drop_append, List.drop_eq_nil_of_le (by omega), hclen, abs_eq]
+        have : j + 1 - k * s.iter.cols = j - k * s.iter.cols + 1 := by omega
+        simp [hf, hnil', s2, this]
+
+/-- `nth` (src/flattenexact.rs:68-98) -/
+theorem nth_spec (m : Mode) {s : Flat} {k n : Nat} (h : s.WF k n) (j : Nat) :
+    ∃ s' k', s.nth m j = .ok ((s.abs k)[j]?, s') ∧ s'.WF k' n ∧ s'.abs k' = (s.abs k).drop (j + 1) := by
+  by_cases hc : s.iter.cols = 0
+  · have hk : k = 0 := Classical.byContradiction fun hk => by
+      have := h.rows.cols_pos hk; omega
+    subst hk
+    obtain ⟨z1, z2⟩ := h.cols_zero hc
+    have hnil : s.abs 0 = [] := by
+      rw [abs_eq, optPositions_nil z1, optPositions_nil z2]; simp [Rows.abs]
+    refine ⟨s, 0, ?_, h, ?_⟩
+    · simp [Flat.nth, hc, hnil]
+    · simp [hnil]
+  · cases hf : s.front with
+    | none => exact nth_spec_none m h hc hf j
+    | some w =>
+      have hin := h.front w hf
+      by_cases hj : j < w.len
+      · refine ⟨{ s with front := some ⟨w.off + j + 1, w.len - j - 1⟩ }, k, ?_, ?_, ?_⟩
+        · rw [nth_front hc hf hj, abs_eq, hf, optPositions_some,
+            List.getElem?_append_left (by rw [positions_length]; exact hj), positions_getElem?, if_pos hj]
+        · refine mkWF h ?_ ?_ ?_ ?_ ?_ ?_
+          · exact h.rows
+          · rfl
+          · intro w' hw'; simp at hw'; subst hw'; simp; omega
+          · exact h.back
+          · simp [hf]; omega
+          · intro hc0; omega
+        · rw [abs_eq, abs_eq, hf]
+          simp only [optPositions_some]
+          rw [List.drop_append, positions_length, positions_drop]
+          have : j + 1 - w.len = 0 := by omega
+          simp [this, Nat.add_assoc, Nat.sub_sub]
+      · have hj' : w.len ≤ j := by omega
+        have h1 : ({ s with front := none } : Flat).WF k n := by
+          refine mkWF h ?_ ?_ ?_ ?_ ?_ ?_
+          · exact h.rows
+          · rfl
+          · simp
+          · exact h.back
+          · simp
+          · intro hc0; omega
+        obtain ⟨s', k', e1, e2, e3⟩ := nth_spec_none m h1 hc rfl (j - w.len)
+        have habsS : s.abs k = w.positions ++ ({ s with front := none } : Flat).abs k := by
+          rw [abs_eq, abs_eq, hf]; simp
+        refine ⟨s', k', ?_, e2, ?_⟩
+        · rw [nth_front_skip hc hf hj', e1, habsS,
+            List.getElem?_append_right (by rw [positions_length]; exact hj'), positions_length]
+        · have hd : w.positions.drop (j + 1) = [] :=
+            List.drop_eq_nil_of_le (by rw [positions_length]; omega)
+          have : j + 1 - w.len = j - w.len + 1 := by omega
+          rw [e3, habsS, List.drop_append, positions_length, hd, this, List.nil_append]
+
+/-! ### `nth_back` -/
+
+theorem nthBack_append_right {β : Type} (Y X : List β) (j : Nat) (hj : j < X.length) :
+    Seq.nthBack (Y ++ X) j = ((Seq.nthBack X j).1, Y ++ (Seq.nthBack X j).2) := by
+  simp only [Seq.nthBack, List.length_append]
+  have h1 : j < Y.length + X.length := by omega
+  rw [if_pos h1, if_pos hj]
+  congr 1
+  · rw [List.getElem?_append_right (by omega)]; congr 1; omega
+  · have h2 : Y.length + X.length - (j + 1) = Y.length + (X.length - (j + 1)) := by omega
+    have h3 : Y.length + (X.length - (j + 1)) - Y.length = X.length - (j + 1) := by omega
+    rw [h2, List.take_append, List.take_of_length_le (by omega), h3]
+
+theorem nthBack_append_left {β : Type} (Y X : List β) (j : Nat) (hj : X.length ≤ j) :
+    Seq.nthBack (Y ++ X) j = Seq.nthBack Y (j - X.length) := by
+  simp only [Seq.nthBack, List.length_append]
+  congr 1
+  · by_cases h : j < Y.length + X.length
+    · have h' : j - X.length < Y.length := by omega
+      rw [if_pos h, if_pos h', List.getElem?_append_left (by omega)]
+      congr 1; omega
+    · have h' : ¬ j - X.length < Y.length := by omega
+      rw [if_neg h, if_neg h']
+  · have h2 : Y.length + X.length - (j + 1) = Y.length - (j - X.length + 1) := by omega
+    rw [h2, List.take_append_of_le_length (by omega)]
+
+theorem nthBack_nil {β : Type} (j : Nat) : Seq.nthBack ([] : List β) j = (none, []) := by
+  simp [Seq.nthBack]
+
+/-- `slice::Iter::nth_back` on a window -/
+theorem slice_nthBack (w : Win) (r : Nat) :
+    (SliceIter.nthBack w r).1 = (Seq.nthBack w.positions r).1 ∧
+    (SliceIter.nthBack w r).2.positions = (Seq.nthBack w.positions r).2 ∧
+    (SliceIter.nthBack w r).2.off + (SliceIter.nthBack w r).2.len ≤ w.off + w.len ∧
+    (SliceIter.nthBack w r).2.len ≤ w.len := by
+  simp only [Seq.nthBack, positions_length]
+  by_cases hr : r < w.len
+  · have h1 : w.len - 1 - r = w.len - (r + 1) := by omega
+    simp only [SliceIter.nthBack, hr, if_true, positions_getElem?, h1]
+    refine ⟨?_, ?_, by omega, by omega⟩
+    · rw [if_pos (by omega)]
+    · rw [positions_take _ _ (by omega)]
+  · simp only [SliceIter.nthBack, hr, if_false]
+    refine ⟨trivial, ?_, by omega, by omega⟩
+    have : w.len - (r + 1) = 0 := by omega
+    rw [this, positions_nil rfl]; rfl
+
+theorem nthBack_back {m : Mode} {s : Flat} {w : Win} {j : Nat} (hc : s.iter.cols ≠ 0) (hf : s.back = some w)
+    (hj : j < w.len) :
+    s.nthBack m j = .ok (some (w.off + (w.len - 1 - j)), { s with back := some ⟨w.off, w.len - 1 - j⟩ }) := by
+  simp [Flat.nthBack, hc, hf, hj, SliceIter.nthBack]
+
+theorem nthBack_back_skip {m : Mode} {s : Flat} {w : Win} {j : Nat} (hc : s.iter.cols ≠ 0)
+    (hf : s.back = some w) (hj : w.len ≤ j) :
+    s.nthBack m j = ({ s with back := none } : Flat).nthBack m (j - w.len) := by
+  have : ¬ j < w.len := by omega
+  simp [Flat.nthBack, hc, hf, this]
+
+theorem nthBack_spec_none (m : Mode) {s : Flat} {k n : Nat} (h : s.WF k n) (hc : s.iter.cols ≠ 0)
+    (hf : s.back = none) (j : Nat) :
+    ∃ s' k', s.nthBack m j = .ok ((Seq.nthBack (s.abs k) j).1, s') ∧ s'.WF k' n ∧
+      s'.abs k' = (Seq.nthBack (s.abs k) j).2 := by
+  have hlen := C08_len m s.iter k n h.rows
+  have hall := (C08_rows_disjoint s.iter k n h.rows).2
+  have hcp : 0 < s.iter.cols := by omega
+  have hclen : (cellsOf (s.iter.abs k)).length = k * s.iter.cols := by
+    rw [cellsOf_length _ _ (fun w hw => (hall w hw).2), rows_abs_length]
+  have htot := h.total
+  have hword := h.rows.word
+  have hkk : k ≤ k * s.iter.cols := Nat.le_mul_of_pos_right k hcp
+  obtain ⟨q, hqd⟩ : ∃ q, j / s.iter.cols = q := ⟨_, rfl⟩
+  obtain ⟨r, hrd⟩ : ∃ r, j % s.iter.cols = r := ⟨_, rfl⟩
+  have hr : r < s.iter.cols := by rw [← hrd]; exact Nat.mod_lt _ hcp
+  have hjqr : j = q * s.iter.cols + r := by
+    have := Nat.div_add_mod j s.iter.cols
+    rw [Nat.mul_comm, hqd, hrd] at this
+    exact this.symm
+  by_cases hq : q < k
+  · have hmin : min k q = q := Nat.min_eq_right (Nat.le_of_lt hq)
+    obtain ⟨it', hn, hwf, habs⟩ := C08_nth_back m s.iter k n h.rows q (by omega)
+    have hcols := rows_nthBack_cols hn
+    simp only [Seq.nthBack, rows_abs_length, if_pos hq] at hn habs
+    have hp : k - 1 - q = k - (q + 1) := by omega
+    rw [hp] at hn
+    have hql : k - (q + 1) < (s.iter.abs k).length := by rw [rows_abs_length]; omega
+    have hget : (s.iter.abs k)[k - (q + 1)]? = some (s.iter.abs k)[k - (q + 1)] := List.getElem?_eq_getElem hql
+    generalize (s.iter.abs k)[k - (q + 1)] = inner at hget
+    rw [hget] at hn
+    have hmem : inner ∈ s.iter.abs k := List.mem_of_getElem? hget
+    obtain ⟨hin, hil⟩ := hall inner hmem
+    have hqc : (q + 1) * s.iter.cols ≤ k * s.iter.cols := Nat.mul_le_mul_right _ hq
+    rw [Nat.add_mul] at hqc
+    have hum : umul m q s.iter.cols = .ok (q * s.iter.cols) := umul_ok _ _ _ (by omega)
+    have hus : usub m j (q * s.iter.cols) = .ok r := by
+      rw [usub_ok m _ _ (by omega)]; congr 1; omega
+    have hD : (cellsOf ((s.iter.abs k).drop (k - (q + 1) + 1))).length = q * s.iter.cols := by
+      rw [cellsOf_length _ s.iter.cols (fun w hw => (hall w (List.mem_of_mem_drop hw)).2), List.length_drop,
+        rows_abs_length]
+      congr 1; omega
+    have habsS : s.abs k = (optPositions s.front ++ cellsOf ((s.iter.abs k).take (k - (q + 1))) ++
+        inner.positions) ++ cellsOf ((s.iter.abs k).drop (k - (q + 1) + 1)) := by
+      rw [abs_eq, hf, cells_split hget]; simp
+    obtain ⟨s1, s2, s3, s4⟩ := slice_nthBack inner r
+    have hval : Seq.nthBack (s.abs k) j = ((Seq.nthBack inner.positions r).1,
+        (optPositions s.front ++ cellsOf ((s.iter.abs k).take (k - (q + 1)))) ++
+          (Seq.nthBack inner.positions r).2) := by
+      have hjr : j - q * s.iter.cols = r := by omega
+      rw [habsS, nthBack_append_left _ _ _ (by rw [hD]; omega), hD, hjr,
+        nthBack_append_right _ _ _ (by rw [positions_length]; omega)]
+    refine ⟨{ s with iter := it', back := some (SliceIter.nthBack inner r).2 }, k - (q + 1), ?_, ?_, ?_⟩
+    · rw [hval, ← s1]
+      simp [Flat.nthBack, hc, hf, hlen, hqd, hmin, hn, hum, hus, hil, hr]
+    · refine mkWF h ?_ ?_ ?_ ?_ ?_ ?_
+      · exact hwf
+      · exact hcols
+      · exact h.front
+      · intro w' hw'; simp at hw'; subst hw'; omega
+      · have : (k - (q + 1) + 1) * s.iter.cols ≤ k * s.iter.cols := Nat.mul_le_mul_right _ (by omega)
+        rw [Nat.add_mul] at this
+        simp [hf]; omega
+      · intro hc0; omega
+    · rw [hval, abs_eq]
+      simp only [optPositions_some, habs, s2, List.append_assoc]
+  · have hkq : k ≤ q := by omega
+    have hmin : min k q = k := Nat.min_eq_left hkq
+    obtain ⟨it', hn, hwf, habs⟩ := C08_nth_back m s.iter k n h.rows k (by omega)
+    have hcols := rows_nthBack_cols hn
+    simp only [Seq.nthBack, rows_abs_length, if_neg (Nat.lt_irrefl k)] at hn habs
+    have hk0 : k - (k + 1) = 0 := by omega
+    rw [hk0] at hwf habs
+    have hnil' : it'.abs 0 = [] := by simp [Rows.abs]
+    have hkc : k * s.iter.cols ≤ j := by
+      have := Nat.mul_le_mul_right s.iter.cols hkq
+      omega
+    have hum : umul m k s.iter.cols = .ok (k * s.iter.cols) := umul_ok _ _ _ (by omega)
+    have hus : usub m j (k * s.iter.cols) = .ok (j - k * s.iter.cols) := usub_ok m _ _ hkc
+    have hval : Seq.nthBack (s.abs k) j = Seq.nthBack (optPositions s.front) (j - k * s.iter.cols) := by
+      have : s.abs k = optPositions s.front ++ cellsOf (s.iter.abs k) := by rw [abs_eq, hf]; simp
+      rw [this, nthBack_append_left _ _ _ (by omega), hclen]
+    cases hb : s.front with
+    | none =>
+      refine ⟨{ s with iter := it' }, 0, ?_, ?_, ?_⟩
+      · rw [hval, hb, optPositions_none, nthBack_nil]
+        simp [Flat.nthBack, hc, hf, hlen, hqd, hmin, hn, hum, hus, hb]
+      · refine mkWF h ?_ ?_ ?_ ?_ ?_ ?_
+        · exact hwf
+        · exact hcols
+        · exact h.front
+        · exact h.back
+        · simp
+        · intro hc0; omega
+      · rw [hval, hb, optPositions_none, nthBack_nil, abs_eq]
+        simp [hf, hnil']
+    | some w =>
+      obtain ⟨s1, s2, s3, s4⟩ := slice_nthBack w (j - k * s.iter.cols)
+      have hin := h.front w hb
+      refine ⟨{ s with iter := it', front := some (SliceIter.nthBack w (j - k * s.iter.cols)).2 }, 0, ?_, ?_, ?_⟩
+      · rw [hval, hb, optPositions_some, ← s1]
+        simp [Flat.nthBack, hc, hf, hlen, hqd, hmin, hn, hum, hus, hb]
+      · refine mkWF h ?_ ?_ ?_ ?_ ?_ ?_
+        · exact hwf
+        · exact hcols
+        · intro w' hw'; simp at hw'; subst hw'; omega
+        · exact h.back
+        · simp [hb]; omega
+        · intro hc0; omega
+      · rw [hval, hb, optPositions_some, abs_eq]
+        simp [hf, hnil', s2]
+
+/-- `nth_back` (src/flattenexact.rs:144-174) -/
+theorem nthBack_spec (m : Mode) {s : Flat} {k n : Nat} (h : s.WF k n) (j : Nat) :
+    ∃ s' k', s.nthBack m j = .ok ((Seq.nthBack (s.abs k) j).1, s') ∧ s'.WF k' n ∧
+      s'.abs k' = (Seq.nthBack (s.abs k) j).2 := by
+  by_cases hc : s.iter.cols = 0
+  · have hk : k = 0 := Classical.byContradiction fun hk => by
+      have := h.rows.cols_pos hk; omega
+    subst hk
+    obtain ⟨z1, z2⟩ := h.cols_zero hc
+    have hnil : s.abs 0 = [] := by
+      rw [abs_eq, optPositions_nil z1, optPositions_nil z2]; simp [Rows.abs]
+    refine ⟨s, 0, ?_, h, ?_⟩
+    · simp [Flat.nthBack, hc, hnil, nthBack_nil]
+    · simp [hnil, nthBack_nil]
+  · cases hf : s.back with
+    | none => exact nthBack_spec_none m h hc hf j
+    | some w =>
+      have hin := h.back w hf
+      have habsS : s.abs k = (optPositions s.front ++ cellsOf (s.iter.abs k)) ++ w.positions := by
+        rw [abs_eq, hf]; simp
+      obtain ⟨s1, s2, s3, s4⟩ := slice_nthBack w j
+      by_cases hj : j < w.len
+      · have hs : SliceIter.nthBack w j = (some (w.off + (w.len - 1 - j)), ⟨w.off, w.len - 1 - j⟩) := by
+          simp [SliceIter.nthBack, hj]
+        rw [hs] at s1 s2
+        refine ⟨{ s with back := some ⟨w.off, w.len - 1 - j⟩ }, k, ?_, ?_, ?_⟩
+        · rw [nthBack_back hc hf hj, habsS, nthBack_append_right _ _ _ (by rw [positions_length]; exact hj), ← s1]
+        · refine mkWF h ?_ ?_ ?_ ?_ ?_ ?_
+          · exact h.rows
+          · rfl
+          · exact h.front
+          · intro w' hw'; simp at hw'; subst hw'; simp; omega
+          · simp [hf]; omega
+          · intro hc0; omega
+        · rw [habsS, nthBack_append_right _ _ _ (by rw [positions_length]; exact hj), ← s2, abs_eq]
+          simp
+      · have hj' : w.len ≤ j := by omega
+        have h1 : ({ s with back := none } : Flat).WF k n := by
+          refine mkWF h ?_ ?_ ?_ ?_ ?_ ?_
+          · exact h.rows
+          · rfl
+          · exact h.front
+          · simp
+          · simp
+          · intro hc0; omega
+        obtain ⟨s', k', e1, e2, e3⟩ := nthBack_spec_none m h1 hc rfl (j - w.len)
+        have habs1 : ({ s with back := none } : Flat).abs k = optPositions s.front ++ cellsOf (s.iter.abs k) := by
+          rw [abs_eq]; simp
+        have hval : Seq.nthBack (s.abs k) j = Seq.nthBack (({ s with back := none } : Flat).abs k) (j - w.len) := by
+          rw [habsS, habs1, nthBack_append_left _ _ _ (by rw [positions_length]; exact hj'), positions_length]
+        refine ⟨s', k', ?_, e2, ?_⟩
+        · rw [nthBack_back_skip hc hf hj', e1, hval]
+        · rw [e3, hval]
+
+/-! ### `size_hint`, `fold`, `rfold` -/
+
+theorem sizeHint_aux (m : Mode) (cols k a b n : Nat) (h : a + k * cols + b ≤ n) (hn : n < WORD) :
+    (do let len ← umul m cols k
+        let len ← uadd m len a
+        let len ← uadd m len b
+        pure len : Res Nat) = .ok (a + k * cols + b) := by
+  have hm : cols * k = k * cols := Nat.mul_comm _ _
+  rw [umul_ok m _ _ (by omega), hm]
+  simp only [ok_bind]
+  rw [uadd_ok m _ _ (by omega)]
+  simp only [ok_bind]
+  rw [uadd_ok m _ _ (by omega)]
+  congr 1; omega
+
+theorem sizeHint_spec (m : Mode) {s : Flat} {k n : Nat} (h : s.WF k n) :
+    s.sizeHint m = .ok (s.abs k).length := by
+  have hlen := C08_len m s.iter k n h.rows
+  have hall := (C08_rows_disjoint s.iter k n h.rows).2
+  have hclen : (cellsOf (s.iter.abs k)).length = k * s.iter.cols := by
+    rw [cellsOf_length _ _ (fun w hw => (hall w hw).2), rows_abs_length]
+  have htot := h.total
+  have hword := h.rows.word
+  have hL : (s.abs k).length = optLen s.front + k * s.iter.cols + optLen s.back := by
+    simp only [abs_eq, List.length_append, optPositions_length, hclen]; omega
+  rw [hL]
+  obtain ⟨it, fr, bk⟩ := s
+  simp only at hlen htot ⊢
+  simp only [Flat.sizeHint, hlen, ok_bind]
+  cases fr <;> cases bk <;> exact sizeHint_aux m _ _ _ _ n htot hword
+
+theorem collect_spec {s : Flat} {k n : Nat} (h : s.WF k n) (fuel : Nat) (hf : k < fuel) :
+    s.collect fuel = .ok (s.abs k) := by
+  have := C08_fold s.iter k n h.rows fuel hf
+  simp only [Flat.collect, this, ok_bind, pure_eq, Flat.abs]
+  cases s.front <;> cases s.back <;> rfl
+
+theorem collectBack_spec (m : Mode) {s : Flat} {k n : Nat} (h : s.WF k n) (fuel : Nat) (hf : k < fuel) :
+    s.collectBack m fuel = .ok (s.abs k).reverse := by
+  have := C08_rfold m s.iter k n h.rows fuel hf
+  simp only [Flat.collectBack, this, ok_bind, pure_eq, abs_eq, List.reverse_append, cellsOf_reverse,
+    List.append_assoc]
+  cases s.front <;> cases s.back <;> rfl
+
+/-! ### `cells()` of the receivers -/
+
+theorem rows_total {it : Rows} {k n : Nat} (h : it.WF k n) : k * it.cols ≤ n := by
+  have hl := h.len
+  have hin := h.inside
+  cases k with
+  | zero => simp
+  | succ r =>
+    simp only [Nat.add_one_ne_zero, if_false, Nat.add_sub_cancel] at hl
+    rw [Nat.mul_add] at hl
+    rw [Nat.add_mul]
+    omega
+
+theorem new_WF {it : Rows} {k n : Nat} (h : it.WF k n) : (Flat.new it).WF k n :=
+  ⟨h, by simp [Flat.new], by simp [Flat.new], by simpa [Flat.new] using rows_total h, by simp [Flat.new]⟩
+
+theorem new_abs (it : Rows) (k : Nat) : (Flat.new it).abs k = cellsOf (it.abs k) := by
+  simp [abs_eq, Flat.new]
+
+theorem cells_map_range (R C : Nat) (f : Nat → Nat) :
+    cellsOf ((List.range R).map fun r => ⟨f r, C⟩) =
+      ((List.range R).map fun r => (List.range C).map fun c => f r + c).flatten := by
+  simp [cellsOf, Win.positions, Function.comp_def]
+
+theorem flatten_range_mul (R C : Nat) :
+    ((List.range R).map fun r => (List.range C).map fun c => r * C + c).flatten = List.range (R * C) := by
+  induction R with
+  | zero => simp
+  | succ R ih =>
+    rw [List.range_succ, List.map_append, List.flatten_append, ih, Nat.add_mul, Nat.one_mul, List.range_add]
+    simp
+
+theorem cells_sorted (R C off stride : Nat) (hs : C ≤ stride) :
+    (((List.range R).map fun r => (List.range C).map fun c => off + r * stride + c).flatten).Pairwise (· < ·) := by
+  rw [List.pairwise_flatten]
+  constructor
+  · intro l hl
+    obtain ⟨r, _, rfl⟩ := List.mem_map.1 hl
+    rw [List.pairwise_map]
+    exact List.Pairwise.imp (fun hab => by omega) List.pairwise_lt_range
+  · rw [List.pairwise_map]
+    refine List.Pairwise.imp ?_ List.pairwise_lt_range
+    intro a b hab x hx y hy
+    obtain ⟨c1, hc1, rfl⟩ := List.mem_map.1 hx
+    obtain ⟨c2, hc2, rfl⟩ := List.mem_map.1 hy
+    have h1 := List.mem_range.1 hc1
+    have : (a + 1) * stride ≤ b * stride := Nat.mul_le_mul_right _ hab
+    rw [Nat.add_mul] at this
+    omega
+
+/-! ### words of operations -/
+
+theorem step_spec (m : Mode) {s : Flat} {k n : Nat} (h : s.WF k n) (f : Nat) (o : Seq.Op) :
+    ∃ s' k', s.step m (f + 2) o = .ok ((Seq.step (s.abs k) o).1, s') ∧ s'.WF k' n ∧
+      s'.abs k' = (Seq.step (s.abs k) o).2 := by
+  cases o with
+  | next =>
+    obtain ⟨s', k', h1, h2, h3⟩ := next_spec h f
+    exact ⟨s', k', by simp [Flat.step, h1, Seq.step, Seq.next], h2, by simpa [Seq.step, Seq.next] using h3⟩
+  | nextBack =>
+    obtain ⟨s', k', h1, h2, h3⟩ := nextBack_spec m h f
+    exact ⟨s', k', by simp [Flat.step, h1, Seq.step, Seq.nextBack], h2,
+      by simpa [Seq.step, Seq.nextBack] using h3⟩
+  | nth j =>
+    obtain ⟨s', k', h1, h2, h3⟩ := nth_spec m h j
+    exact ⟨s', k', by simp [Flat.step, h1, Seq.step, Seq.nth], h2, by simpa [Seq.step, Seq.nth] using h3⟩
+  | nthBack j =>
+    obtain ⟨s', k', h1, h2, h3⟩ := nthBack_spec m h j
+    exact ⟨s', k', by simp [Flat.step, h1, Seq.step], h2, by simpa [Seq.step] using h3⟩
+  | len =>
+    exact ⟨s, k, by simp [Flat.step, sizeHint_spec m h, Seq.step], h, by simp [Seq.step]⟩
+
+theorem run_spec (m : Mode) {s : Flat} {k n : Nat} (h : s.WF k n) (f : Nat) (w : List Seq.Op) :
+    ∃ s' k', s.run m (f + 2) w = .ok ((Seq.run (s.abs k) w).1, s') ∧ s'.WF k' n ∧
+      s'.abs k' = (Seq.run (s.abs k) w).2 := by
+  induction w generalizing s k with
+  | nil => exact ⟨s, k, by simp [Flat.run, Seq.run], h, by simp [Seq.run]⟩
+  | cons o os ih =>
+    obtain ⟨s1, k1, h1, h2, h3⟩ := step_spec m h f o
+    obtain ⟨s2, k2, g1, g2, g3⟩ := ih h2
+    refine ⟨s2, k2, ?_, g2, ?_⟩
+    · simp only [Flat.run, h1, ok_bind, g1, pure_eq, Seq.run, h3]
+    · simp only [Seq.run, g3, h3]
+
 end FlatL
 end Toodee
